@@ -89,7 +89,9 @@ func Variants() []Variant { return variants() }
 func Parts() []mc.Part {
 	var ps []mc.Part
 	for _, v := range variants() {
-		ps = append(ps, mc.ExplorePart(v.Name, New(v), v.Quick, v.Thorough, false, rule))
+		// (fee variants set parameters through the gov authority in their fixture: not expressible as signed txs, skipped there)
+		ps = append(ps, mc.ExplorePartC(v.Name, New(v), v.Quick, v.Thorough, false, rule,
+			&mc.ConfOpts{Stores: []string{"token"}, SkipDenoms: map[string]bool{"stake": true}, MaxPaths: 60}))
 	}
 	return ps
 }
